@@ -13,3 +13,5 @@ func verifPreClientFlight(hs *serverHandshakeStateTLS13) error               { r
 func verifEmit(c *Conn, ev string, data []byte)                              {}
 func verifSuite12(hs *serverHandshakeState, s *cipherSuite) *cipherSuite           { return s }
 func verifGroup12(config *Config, g CurveID) CurveID                           { return g }
+func verifECDHPart(hs *serverHandshakeStateTLS13, g CurveID, data []byte) (CurveID, []byte) { return g, data }
+func verifHybridPart(hs *serverHandshakeStateTLS13, g CurveID, clientShare []byte) error { return nil }
